@@ -171,6 +171,7 @@ def make_jobs(tier, seed):
         jobs.append(('soup', seed * 1000003 + 200 + i, 50 if q else 70))
         jobs.append(('bytes', seed * 1000003 + 300 + i, 30 if q else 40))
         jobs.append(('planted', seed * 1000003 + 500 + i, 60 if q else 90))
+        jobs.append(('mlwarn', seed * 1000003 + 700 + i, 25 if q else 40))
     for i in range(12 if q else 64):
         jobs.append(('probe', seed * 1000003 + 400 + i, 4000 if q else 12000))
     for i in range(8 if q else 48):
@@ -226,6 +227,33 @@ def run_job(job, acc):
                     data = data.encode()
                 exercise(acc, wd, data, 'mutation', r, with_chk=(i % 6 == 0),
                          origin='mutation seed=%d #%d' % (job[1], i))
+        elif kind == 'mlwarn':
+            # warning-only grammars whose warned-about names span lines (a newline inside <...>)
+            from . import c15
+            for i in range(job[2]):
+                sh = r.choice(common.SHELLS)
+                stmts = c15.make_grammar(r, sh)
+                brk = r.choice(['\n', '\n\n', ' \n', '\t\n ', 'x\n'])
+
+                def ren(nm):
+                    return nm[:1] + brk + nm[1:] if nm.startswith('N') and r.random() < 0.7 else nm
+                names = {}
+
+                def f(e):
+                    if e[0] == 'nt':
+                        names.setdefault(e[1], ren(e[1]))
+                        return ('nt', names[e[1]])
+                    return e
+                out = []
+                for st in stmts:
+                    if st[0] == 'call':
+                        out.append(('call', st[1], gast.map_expr(f, st[2])))
+                    else:
+                        names.setdefault(st[1], ren(st[1]))
+                        out.append(('def', names[st[1]], st[2], gast.map_expr(f, st[3])))
+                text, _, _ = gast.print_grammar(out, layout=r if r.random() < 0.5 else None)
+                exercise(acc, wd, text.encode(), 'multi-line-warning', r, expect_accept=True, shells=[sh],
+                         with_chk=(i % 5 == 0), origin='mlwarn seed=%d #%d' % (job[1], i))
         elif kind == 'planted':
             from . import c08
             for i in range(job[2]):
